@@ -6,7 +6,7 @@
     commutative ring (MathComp [comRingType]), [ROps R ...] = the model's operations instantiated with
     the ring operations, the uninterpreted ones (division, sqrt, fabs, <) arbitrary. *)
 From mathcomp Require Import all_ssreflect all_algebra.
-From LP Require Import Num C04_Model C04_State C04_Life C04_Proofs_Struct C04_Proofs_Laws C04_Proofs_Block C04_Proofs_State C04_Proofs_Life.
+From LP Require Import Num C04_Model C04_State C04_Life C04_Proofs_Struct C04_Proofs_Laws C04_Proofs_Block C04_Proofs_State C04_Proofs_Life C04_Proofs_Hist C04_Proofs_Alg.
 Import GRing.Theory.
 Local Open Scope ring_scope.
 
@@ -327,6 +327,96 @@ Proof.
               (proj1 (@v_mut_compound T Ops vs v a)) (proj2 (@v_mut_compound T Ops vs v a))).
 Qed.
 Print Assumptions C04_life_vector.
+(** Whole sessions of ANY length ("all operator spellings" on objects that live on; [life_run] = the calls of a session made one
+    after the other, the function the driver advances the live objects of a `life` case with; induction over the list of calls).
+    A session splits at every point; an undefined call ends it. *)
+Theorem C04_session_composition (st : @lstate T) (s : @lstep T) (l1 l2 : seq (@lstep T)) :
+  [/\ life_run Ops st [::] = Ok st,
+      life_run Ops st (s :: l1) = rbind (life_step Ops st s) (fun st1 => life_run Ops st1 l1) &
+      life_run Ops st (l1 ++ l2) = rbind (life_run Ops st l1) (fun st1 => life_run Ops st1 l2)].
+Proof. exact (And3 (life_run_nil Ops st) (life_run_cons Ops st s l1) (life_run_cat Ops st l1 l2)). Qed.
+Print Assumptions C04_session_composition.
+(** the class invariant holds for every live matrix and vector at the end of every session and after every prefix of it
+    (operands written out in the calls being well-formed values), and no object appears or disappears *)
+Theorem C04_session_invariant (steps : seq (@lstep T)) (n : nat) (st st' : @lstate T) :
+  lstate_wf st -> all (@lstep_ok T) steps -> life_run Ops st steps = Ok st' ->
+  [/\ lstate_wf st', size st'.1 = size st.1, size st'.2 = size st.2 &
+      exists2 stn, life_run Ops st (take n steps) = Ok stn & lstate_wf stn].
+Proof.
+  exact (fun H1 H2 H3 => let: And3 a b c := @life_run_invariant T Ops steps st st' H1 H2 H3 in
+                         And4 a b c (@life_run_prefix_invariant T Ops steps n st st' H1 H2 H3)).
+Qed.
+Print Assumptions C04_session_invariant.
+(** frame: an object that no call of the session addresses holds at the end the value it had at the start - whatever the
+    session did to the other objects, also with this object as their operand *)
+Theorem C04_session_frame (steps : seq (@lstep T)) (st st' : @lstate T) : life_run Ops st steps = Ok st' ->
+  (forall j, ~~ has (targets_m j) steps -> nth (mkMat 0 0 [::]) st'.1 j = nth (mkMat 0 0 [::]) st.1 j) /\
+  (forall j, ~~ has (targets_v j) steps -> nth (mkVec 0 [::]) st'.2 j = nth (mkVec 0 [::]) st.2 j).
+Proof. exact (@life_run_frame T Ops steps st st'). Qed.
+Print Assumptions C04_session_frame.
+(** "sums and differences ... agree with their compound-assignment forms" along whole sessions: writing v = v + b for every
+    v += b and v = v - b for every v -= b, anywhere in a session of any length, changes nothing in the state the process ends
+    in (nor whether it ends in exit); the same for matrices in sessions where a matrix has at least one row whenever += / -= is
+    called on it ([rows_ok]; shapes with zero rows are outside the property's quantifier) *)
+Theorem C04_session_compound (steps : seq (@lstep T)) (st : @lstate T) :
+  life_run Ops st (map (@desugar_v T) steps) = life_run Ops st steps /\
+  (rows_ok Ops st steps -> life_run Ops st (map (@desugar_m T) steps) = life_run Ops st steps).
+Proof. exact (conj (life_run_desugar_v Ops steps st) (@life_run_desugar_m T Ops steps st)). Qed.
+Print Assumptions C04_session_compound.
+
+(** Further algebraic laws "for every conformable shape", exact for every number type (no law of the scalars is used: the two
+    sides perform the same operations on the same operands): transposition is additive and homogeneous, the trace of the
+    transpose is the trace (both exit for a non-square matrix) *)
+Theorem C04_transpose_linear (A B : mat T) (s : T) : (0 < mrows A)%N -> (0 < mcols A)%N -> (0 < mcols B)%N ->
+  [/\ rbind (m_plus Ops A B) (transpose Ops)
+      = rbind (transpose Ops A) (fun At => rbind (transpose Ops B) (fun Bt => m_plus Ops At Bt)),
+      rbind (m_minus Ops A B) (transpose Ops)
+      = rbind (transpose Ops A) (fun At => rbind (transpose Ops B) (fun Bt => m_minus Ops At Bt)),
+      rbind (m_product_s Ops A s) (transpose Ops) = rbind (transpose Ops A) (fun At => m_product_s Ops At s),
+      rbind (m_division Ops A s) (transpose Ops) = rbind (transpose Ops A) (fun At => m_division Ops At s) &
+      rbind (transpose Ops A) (trace Ops) = trace Ops A].
+Proof.
+  exact (fun Hr Hc HcB => And5 (proj1 (@transpose_sum T Ops A B Hr Hc HcB)) (proj2 (@transpose_sum T Ops A B Hr Hc HcB))
+                               (proj1 (@transpose_scale T Ops A s Hr Hc)) (proj2 (@transpose_scale T Ops A s Hr Hc))
+                               (@trace_transpose T Ops A Hc)).
+Qed.
+Print Assumptions C04_transpose_linear.
+(** Symmetric(A) holds exactly when Transpose() returns A itself (whenever == decides equality) *)
+Theorem C04_symmetric_is_transpose_fixed (eqbP : forall x y : T, reflect (x = y) (neqb Ops x y)) (A : mat T) :
+  wf_mat A -> (0 < mrows A)%N -> (0 < mcols A)%N -> (symmetric Ops A <-> transpose Ops A = Ok A).
+Proof. exact (@symmetric_transpose T Ops eqbP A). Qed.
+Print Assumptions C04_symmetric_is_transpose_fixed.
+(** laws that need only x*y = y*x (so exact for doubles): u.v = v.u; v*A = transpose(A)*v and A*v = v*transpose(A) (the
+    vector-matrix product IS the matrix-vector product with the transpose, guards included);
+    transpose(outer(u,v)) = outer(v,u); transpose(A)*A is symmetric for every shape of A *)
+Theorem C04_commutative_product_laws (mulC : forall x y : T, nmul Ops x y = nmul Ops y x) (A : mat T) (u v : vec T) :
+  [/\ vdot Ops u v = vdot Ops v u,
+      (0 < mcols A)%N -> v_mul_m Ops v A = rbind (transpose Ops A) (fun At => m_product_v Ops At v) /\
+                         m_product_v Ops A v = rbind (transpose Ops A) (fun At => v_mul_m Ops v At),
+      (0 < vdim v)%N -> transpose Ops (outer Ops u v) = Ok (outer Ops v u) &
+      (forall x y : T, reflect (x = y) (neqb Ops x y)) -> forall G, (0 < mcols A)%N ->
+        rbind (transpose Ops A) (fun At => m_product Ops At A) = Ok G -> symmetric Ops G].
+Proof.
+  exact (And4 (@dot_comm T Ops mulC u v) (@vecmat_transpose T Ops mulC v A) (@outer_transpose T Ops mulC u v)
+              (fun eqbP G => @gram_symmetric T Ops mulC eqbP A G)).
+Qed.
+Print Assumptions C04_commutative_product_laws.
+(** laws that need only x+y = y+x: A + B = B + A in every spelling, u + v = v + u (equal results, defined for the same pairs) *)
+Theorem C04_sum_commutative (addC : forall x y : T, nadd Ops x y = nadd Ops y x) :
+  (forall A B : mat T, m_plus Ops A B = m_plus Ops B A /\ m_op_plus Ops A B = m_op_plus Ops B A /\
+                       m_add_assign Ops A B = m_add_assign Ops B A) /\
+  (forall u v : vec T, vadd Ops u v = vadd Ops v u).
+Proof. exact (@sum_comm T Ops addC). Qed.
+Print Assumptions C04_sum_commutative.
+(** Vector::Normalized() is the vector divided by its Norm() entry by entry, is always defined, keeps the size and the
+    invariant; Normalize() leaves exactly that value in the object *)
+Theorem C04_normalized (v : vec T) :
+  [/\ v_normalized Ops v = rbind (vnorm Ops v) (fun nrm => Ok (vdivs Ops v nrm)),
+      v_normalize Ops v = v_normalized Ops v,
+      forall w, v_normalized Ops v = Ok w -> wf_vec w /\ vdim w = vdim v &
+      exists w, v_normalized Ops v = Ok w].
+Proof. exact (normalized_spec Ops v). Qed.
+Print Assumptions C04_normalized.
 End AnyNumberType.
 
 (** Non-vacuity of the laws assumed above: the natural numbers satisfy them; a 2x3 * 3x2 instance,
@@ -434,4 +524,94 @@ Theorem C04_antisymmetric_iff (A : mat R) :
   (mrows A = mcols A /\ forall i j, (i < mrows A)%N -> (j < mrows A)%N -> ment A i j = - ment A j i).
 Proof. exact (@antisymmetric_iff R divR absR sqrtR ltR leR A). Qed.
 Print Assumptions C04_antisymmetric_iff.
+(** "Vector and matrix algebra obeys the algebraic laws for every conformable shape": the laws that reorder sums, over the
+    ring.  (A*B)*C = A*(B*C) for every conformable triple (m x n, n x p, p x q); both distributive laws; (s*A)*B = s*(A*B) *)
+Theorem C04_product_associative (A B C : mat R) : mcols A = mrows B -> mcols B = mrows C ->
+  rbind (m_product Ops A B) (fun AB => m_product Ops AB C) = rbind (m_product Ops B C) (fun BC => m_product Ops A BC) /\
+  exists D, rbind (m_product Ops A B) (fun AB => m_product Ops AB C) = Ok D.
+Proof. exact (@product_assoc R divR absR sqrtR ltR leR A B C). Qed.
+Print Assumptions C04_product_associative.
+Theorem C04_product_distributive (A B C : mat R) (s : R) :
+  [/\ mcols A = mrows B -> same_shape B C -> (0 < mrows A)%N -> (0 < mrows B)%N ->
+      rbind (m_plus Ops B C) (fun S => m_product Ops A S)
+      = rbind (m_product Ops A B) (fun AB => rbind (m_product Ops A C) (fun AC => m_plus Ops AB AC)),
+      mcols A = mrows C -> same_shape A B -> (0 < mrows A)%N ->
+      rbind (m_plus Ops A B) (fun S => m_product Ops S C)
+      = rbind (m_product Ops A C) (fun AC => rbind (m_product Ops B C) (fun BC => m_plus Ops AC BC)) &
+      (0 < mrows A)%N -> mcols A = mrows B ->
+      rbind (m_product_s Ops A s) (fun sA => m_product Ops sA B) = rbind (m_product Ops A B) (fun AB => m_product_s Ops AB s)].
+Proof.
+  exact (And3 (proj1 (@product_distr R divR absR sqrtR ltR leR A B C)) (proj2 (@product_distr R divR absR sqrtR ltR leR A B C))
+              (@scale_product R divR absR sqrtR ltR leR A B s)).
+Qed.
+Print Assumptions C04_product_distributive.
+(** Trace(A*B) = Trace(B*A) for A m x n and B n x m (both products square, of different sizes);
+    Norm(transpose(A)) = Norm(A) *)
+Theorem C04_trace_norm_laws (A B At : mat R) :
+  (mcols A = mrows B -> mcols B = mrows A ->
+   rbind (m_product Ops A B) (trace Ops) = rbind (m_product Ops B A) (trace Ops) /\
+   exists t, rbind (m_product Ops A B) (trace Ops) = Ok t) /\
+  ((0 < mcols A)%N -> transpose Ops A = Ok At -> m_norm Ops At = m_norm Ops A).
+Proof. exact (conj (@trace_product_comm R divR absR sqrtR ltR leR A B) (@norm_transpose R divR absR sqrtR ltR leR A At)). Qed.
+Print Assumptions C04_trace_norm_laws.
+(** the dot product is additive and homogeneous (and symmetric, C04_commutative_product_laws); u x v = -(v x u) *)
+Theorem C04_dot_cross_laws (u u' v w : vec R) (s : R) :
+  [/\ vdim u = vdim v -> vdim u' = vdim v ->
+      rbind (vadd Ops u u') (fun x => vdot Ops x v)
+      = rbind (vdot Ops u v) (fun a => rbind (vdot Ops u' v) (fun b => Ok (a + b))),
+      vdim u = vdim v -> vdim u' = vdim v -> vdot Ops (vscale Ops u s) v = rbind (vdot Ops u v) (fun a => Ok (a * s)) &
+      vcross Ops u v = Ok w -> vcross Ops v u = Ok (vscale Ops w (-1))].
+Proof.
+  exact (And3 (fun H1 H2 => proj1 (@dot_bilinear R divR absR sqrtR ltR leR u u' v s H1 H2))
+              (fun H1 H2 => proj2 (@dot_bilinear R divR absR sqrtR ltR leR u u' v s H1 H2))
+              (@cross_anticomm R divR absR sqrtR ltR leR u v w)).
+Qed.
+Print Assumptions C04_dot_cross_laws.
 End CommutativeRing.
+
+Section RealClosedField.
+Variable R : rcfType.
+Variables (ltR leR : R -> R -> bool).
+Local Notation Ops := (ROps (fun x y : R => x / y) Num.norm Num.sqrt ltR leR).
+(** Normalized() of a vector with a non-zero entry is a unit vector: over a real closed field, with the field's division and
+    square root as the model's / and sqrt, its dot product with itself and its Norm() are exactly 1 *)
+Theorem C04_normalized_unit (v w : vec R) :
+  (exists2 i, (i < vdim v)%N & vent Ops v i != 0) -> v_normalized Ops v = Ok w ->
+  [/\ vdim w = vdim v, vdot Ops w w = Ok 1 & vnorm Ops w = Ok 1].
+Proof. exact (@normalized_unit R ltR leR v w). Qed.
+Print Assumptions C04_normalized_unit.
+End RealClosedField.
+
+(** Non-vacuity of the hypotheses of the session theorems (a session of eight calls on two matrices and two vectors over the
+    natural numbers: well-formed start, admissible calls, [rows_ok], an untouched object, the state it ends in), of the
+    commutative laws (nat), of the shape hypotheses of the ring laws (2x3, 3x4, 4x2, 3x2 over any ring) and of
+    C04_normalized_unit (the vector (3,4) over any real closed field) *)
+Theorem C04_examples_sessions_laws :
+  [/\ lstate_wf exSt, all (@lstep_ok nat) exSteps, rows_ok NOps exSt exSteps, ~~ has (targets_m 1) exSteps &
+      life_run NOps exSt exSteps
+      = Ok ([:: mkMat 3 2 [:: [:: 0; 0]; [:: 0; 0]; [:: 0; 0]]; exB], [:: vec_of [:: 1; 2; 7]; vec_of [:: 4; 6; 8]])%N] /\
+  inhabited (forall x y : nat, reflect (x = y) (neqb NOps x y)) /\
+  (let v := vec_of [:: 1; 2]%N in
+   [/\ v_mul_m NOps v exA = Ok (vec_of [:: 2; 8; 14]%N),
+       rbind (transpose NOps exA) (fun At => m_product_v NOps At v) = Ok (vec_of [:: 2; 8; 14]%N),
+       rbind (transpose NOps exA) (fun At => m_product NOps At exA)
+         = Ok (mkMat 3 3 [:: [:: 1; 3; 5]; [:: 3; 13; 23]; [:: 5; 23; 41]]%N),
+       symmetric NOps (mkMat 3 3 [:: [:: 1; 3; 5]; [:: 3; 13; 23]; [:: 5; 23; 41]]%N) &
+       rbind (m_plus NOps exA exA) (transpose NOps)
+         = rbind (transpose NOps exA) (fun At => rbind (transpose NOps exA) (fun Bt => m_plus NOps At Bt))]).
+Proof. exact (conj history_instance (conj (inhabits NeqbP) comm_laws_instance)). Qed.
+Print Assumptions C04_examples_sessions_laws.
+Theorem C04_examples_ring_rcf :
+  (forall R : comRingType,
+   let A := mk_mat 2 3 (fun i j => (i + 2 * j)%:R) : mat R in
+   let B := mk_mat 3 4 (fun i j => (3 * i + j + 1)%:R) : mat R in
+   let C := mk_mat 4 2 (fun i j => (i * j)%:R) : mat R in
+   let D := mk_mat 3 2 (fun i j => (i + j)%:R) : mat R in
+   [/\ mcols A = mrows B, mcols B = mrows C, mcols A = mrows D /\ mcols D = mrows A,
+       same_shape B B /\ (0 < mrows A)%N /\ (0 < mrows B)%N & mrows A <> mcols A]) /\
+  (forall (R : rcfType) (ltR leR : R -> R -> bool),
+   let Ops := ROps (fun x y : R => x / y) Num.norm Num.sqrt ltR leR in
+   let v := vec_of [:: 3%:R; 4%:R] : vec R in
+   (exists2 i, (i < vdim v)%N & vent Ops v i != 0) /\ exists w, v_normalized Ops v = Ok w).
+Proof. exact (conj ring_shapes_instance normalized_instance). Qed.
+Print Assumptions C04_examples_ring_rcf.
